@@ -30,8 +30,8 @@ MANIFEST = {
                   'Hit counters on fromutc/utcoffset/tzname/dst prove each class was reached.  Exploration level.',
     'level_note': 'Trusts CPython datetime.astimezone, the TZif reader and the POSIX evaluator.',
 }
-PLAN = {'quick': {'shards': 4, 'timeout': 600, 'budget': 60},
-        'thorough': {'shards': 16, 'timeout': 3000, 'budget': 900}}
+PLAN = {'quick': {'shards': 4, 'timeout': 1800, 'budget': 900},
+        'thorough': {'shards': 16, 'timeout': 7200, 'budget': 2400}}
 OFFSETS = (-86400, -7200, -3600, -1800, -1, 0, 1, 1799, 3599, 3600, 3601, 7199, 7200, 10800, 86400)
 LO, HI = -62135596800 + 400000, 253402300799 - 400000
 
